@@ -48,18 +48,68 @@ def flip(o):
     return {"+": "-", "-": "+", ">": "<", "<": ">"}[o]
 
 
-def endpoint_mutations(ctx, f, kind):
-    """For add_edge / remove_edge: per path, the list of adjacency mutations
-    (endpoint expr, method name, args texts).  kind: 'add' | 'remove'."""
+import re as _re
+
+
+def _subst_text(text, mapping):
+    for k, v in mapping.items():
+        text = _re.sub(rf"(?<![\w.]){_re.escape(k)}(?![\w])", v, text)
+    return text
+
+
+class VPath:
+    """A path through an edge mutator with the one-sided helper calls inlined: tests and mutations as texts."""
+
+    def __init__(self, tests, muts, term, shown):
+        self.tests, self.muts, self.term, self.shown = tests, muts, term, shown
+
+    def show(self, limit=14):
+        return self.shown
+
+
+def endpoint_mutations(ctx, f, kind, depth=0, mapping=None):
+    """Per path of add_edge / remove_edge: the adjacency mutations (endpoint node text, method, args texts) and the
+    tests evaluated, with calls to private helpers of the same class inlined (parameters replaced by the argument
+    texts) and receiver temporaries (`first = self.nodes[n1]`) resolved."""
+    from ..core import local_defs, resolve_expr
+    from ..paths import canon_test
+
+    repo = ctx.repo
+    mapping = mapping or {}
+    ldefs = local_defs(f.node)
     paths = enum_paths(f.node.body, rule="R15.2", where=f.where())
     out = []
     for p in paths:
-        muts = []
+        variants = [([], [])]
         for e in p.events:
-            if e.kind == "stmt" and isinstance(e.node, ast.Expr) and isinstance(e.node.value, ast.Call) and isinstance(e.node.value.func, ast.Attribute):
+            if e.kind == "test":
+                t, pol = canon_test(e.node, e.pol)
+                t = _subst_text(t, mapping)
+                variants = [(ts + [(t, pol)], ms) for ts, ms in variants]
+            elif e.kind == "stmt" and isinstance(e.node, ast.Expr) and isinstance(e.node.value, ast.Call) and isinstance(e.node.value.func, ast.Attribute):
                 c = e.node.value
                 m = c.func.attr
                 if m.startswith(("add_from_", "remove_from_")):
-                    muts.append((norm(c.func.value), m, [norm(a) for a in c.args]))
-        out.append((p, muts))
+                    rv = c.func.value
+                    if isinstance(rv, ast.Name) and rv.id in ldefs and len(ldefs[rv.id]) == 1 and ldefs[rv.id][0] is not None and isinstance(ldefs[rv.id][0], ast.Subscript):
+                        recv = _subst_text(norm(ldefs[rv.id][0]), mapping)
+                    else:
+                        recv = _subst_text(norm(rv), mapping)
+                    args = [_subst_text(norm(a), mapping) for a in c.args]  # argument names are compared with the tests, keep them as written
+                    variants = [(ts, ms + [(recv, m, args)]) for ts, ms in variants]
+                else:
+                    callee = repo.resolve_call(f, c)
+                    if callee is not None and callee.cls == f.cls and depth < 2 and any(isinstance(x, ast.Call) and isinstance(x.func, ast.Attribute) and x.func.attr.startswith(("add_from_", "remove_from_")) for x in walk_own(callee.node)):
+                        params = callee.params[1:]
+                        sub = {pn: _subst_text(norm(a), mapping) for pn, a in zip(params, c.args)}
+                        for k in c.keywords:
+                            sub[k.arg] = _subst_text(norm(k.value), mapping)
+                        inner = endpoint_mutations(ctx, callee, kind, depth + 1, sub)
+                        nv = []
+                        for ts, ms in variants:
+                            for ip in inner:
+                                nv.append((ts + ip.tests, ms + ip.muts))
+                        variants = nv
+        for ts, ms in variants:
+            out.append(VPath(ts, ms, p.term, p.show()))
     return out
